@@ -111,7 +111,63 @@ def run(chk, repo):
     chk.require(tkeys is not None and tkeys == skeys, "C14-S5", f"{mod.relpath}:transform_summary", f"sections {sorted(skeys or [])} each have a transformer and a name",
                 f"section_names keys {sorted(skeys or [])} != transformer keys {sorted(tkeys or [])}", key="sections:agree")
     chk.attempt(grouping_semantics, chk, repo, mod)
+    chk.attempt(section_schema, chk, repo, mod)
+    chk.attempt(keyword_order, chk, repo, mod)
     chk.count("functions", 3)
+
+
+def section_schema(chk, repo, mod):
+    """S7: which keyword surfaces where and through which conversion (int, float, ISO date, decoded id, lookup table,
+    (pixels, lines) tuple, 'N/A' default), derived by shape inference over transform_summary on a model file whose
+    values are unknown texts, compared with the reference schema"""
+    from ..records import Layouts
+    from ..shapes_rules import link_tables
+    link_tables(chk, repo, Layouts(repo), "C14", r_schema="C14-S7", r_coll="C14-S7c")
+
+
+def keyword_order(chk, repo, mod):
+    """S8: the result is independent of the order of the lines within a section: the same inference on permuted
+    models must give the same schema (the ProductFileName lines keep their relative order: their contract is positional)"""
+    from ..schema import Pipelines, flatten, summary_model
+    from ..shapes import _Raise
+    chk.rule("C14-S8", "the summary tree is independent of the order of the keywords within a section (file names keep their relative order)", 3)
+
+    def keep_files(keys, perm):
+        files = [k for k in keys if "ProductFileName" in k]
+        out, it = [], iter(files)
+        for k in perm:
+            out.append(next(it) if "ProductFileName" in k else k)
+        return out
+
+    def rev(sec, keys):
+        return keep_files(keys, list(reversed(keys)))
+
+    def kinds_apart(sec, keys):
+        # all NoOfLines_* before all NoOfPixels_*, indices descending, everything else after them
+        a = sorted([k for k in keys if k.startswith("NoOfLines")], reverse=True)
+        b = sorted([k for k in keys if k.startswith("NoOfPixels")])
+        rest = [k for k in keys if k not in a and k not in b]
+        b = b[1:] + b[:1]
+        return keep_files(keys, a + rest[::2] + b + rest[1::2])
+
+    def rotated(sec, keys):
+        n = len(keys) // 2
+        return keep_files(keys, keys[n:] + keys[:n])
+
+    P = Pipelines(repo)
+    base = flatten(P._call("ceos_alos2.summary", "transform_summary", summary_model()))
+    where = f"{mod.relpath}:transform_summary"
+    for label, order in (("reversed", rev), ("lines before pixels, indices shuffled", kinds_apart), ("rotated", rotated)):
+        try:
+            got = flatten(Pipelines(repo)._call("ceos_alos2.summary", "transform_summary", summary_model(order)))
+        except AnalysisError as e:
+            chk.fail("C14-S8", where, f"keywords in {label} order: the transform raises ({str(e)[:120]}) although it succeeds in file order", key=f"order:{label}:raises")
+            continue
+        diff = [k for k in sorted(set(base) | set(got)) if base.get(k) != got.get(k)]
+        chk.require(not diff, "C14-S8", where, f"keywords in {label} order give the same {len(base)} entries",
+                    f"keywords in {label} order change the result: {diff[0]} is {got.get(diff[0], '<absent>')[:110]} instead of {base.get(diff[0], '<absent>')[:110]}"
+                    f" ({len(diff)} entries differ): values are paired/selected by position, not by keyword" if diff else "", key=f"order:{label}",
+                    sample={"order": label, "entries": len(got)})
 
 
 def grouping_semantics(chk, repo, mod):
